@@ -36,7 +36,12 @@ MDF = ["default", "dict_union", "prefer_other", "tag", "none"]
 def operand(draw, values, with_md, base=None):
     def pick(uni, first):
         how = draw(st.sampled_from(["free", "free", "free", "perm", "same",
-                                    "nested"])) if first else "free"
+                                    "nested", "disjoint"])) if first \
+            else "free"
+        rest = [u for u in uni if first and u not in first]
+        if how == "disjoint" and rest:
+            return list(draw(st.lists(st.sampled_from(rest), min_size=1,
+                                      max_size=len(rest), unique=True)))
         if how == "perm":       # the same IDs, listed in another order
             return list(draw(st.permutations(first)))
         if how == "same":
